@@ -38,7 +38,8 @@ CONSTANTS
   Recoverers,   \* SUBSET Runner running the two recovery tasks
   Stoppable,    \* SUBSET Runner that may be asked to stop
   MaxCrashes,   \* how many processes may die
-  TrackHist     \* BOOLEAN: model the history log (C10)
+  TrackHist,    \* BOOLEAN: model the history log (C10)
+  RecoveryAbortsOnLostRace  \* TRUE = behaviour of the pinned commit (defect fixed in /repo, see known_findings.json)
 
 VARIABLES
   queue,      \* Seq(Inv): the broker
@@ -58,11 +59,11 @@ VARIABLES
   \* ghosts
   accepted,   \* SUBSET Inv: the caller got the invocation back
   execs,      \* [Inv -> Nat]: body executions started
-  done,       \* [Inv -> Nat]: body executions completed
+  done,       \* [Inv -> SUBSET Nat]: the executions (numbers) whose body completed
   inBody,     \* set of <<runner, inv, epoch>>: body currently executing
   epoch,      \* [Inv -> Nat]: incremented by KILLED / *_RECOVERY
   changes,    \* [Inv -> Seq(<<status, runner>>)]: every successful status change (ghost log)
-  crashes     \* number of crashes so far
+  crashes     \* set of <<process, {<<role, pc, inv in hand>>}>>: the crashes so far
 
 vars == <<queue, rec, indexed, retries, result, exc, hist, histq, pc, loc, alive, aged, expired,
           stopping, clock, accepted, execs, done, inBody, epoch, changes, crashes>>
@@ -88,7 +89,7 @@ Live(a) == alive[ProcOf(a)]
 EmptyLoc == [cur |-> NoInv, sub |-> 0, k |-> 0, todo |-> <<>>, rr |-> <<>>, got |-> {}, missing |-> 0]
 
 St(i) == rec[i].st
-CurOutcome(i) == LET o == Outcome[i] n == execs[i] IN IF n <= Len(o) THEN o[n] ELSE o[Len(o)]
+OutcomeOf(i, n) == LET o == Outcome[i] IN IF n <= Len(o) THEN o[n] ELSE o[Len(o)]
 
 \* same-key invocations the concurrency lookup can see (argument index needed unless Mode = "task")
 Visible(j) == Mode = "task" \/ j \in indexed
@@ -142,11 +143,11 @@ Init ==
   /\ clock = 1
   /\ accepted = {}
   /\ execs = [i \in Inv |-> 0]
-  /\ done = [i \in Inv |-> 0]
+  /\ done = [i \in Inv |-> {}]
   /\ inBody = {}
   /\ epoch = [i \in Inv |-> 0]
   /\ changes = [i \in Inv |-> <<>>]
-  /\ crashes = 0
+  /\ crashes = {}
 
 ----------------------------------------------------------------------------
 \* client: route_call / route_calls  (registration concurrency off)
@@ -340,25 +341,24 @@ W_SetRunning(a) ==
   /\ LET i == a[3] r == a[2] IN
      /\ Change(i, "running", r)
      /\ IF Ok(i, "running", r)
-          THEN /\ Goto(a, "w_body")
+          THEN /\ GotoL(a, "w_body", [EmptyLoc EXCEPT !.k = execs[i] + 1])
                /\ execs' = [execs EXCEPT ![i] = @ + 1]
                /\ inBody' = inBody \cup {<<r, i, epoch[i], execs[i] + 1>>}
-          ELSE WEnd(a) /\ UNCHANGED <<execs, inBody>>
-  /\ UNCHANGED <<queue, indexed, retries, result, exc, hist, loc, alive, expired, stopping,
+          ELSE WEnd(a) /\ UNCHANGED <<execs, inBody, loc>>
+  /\ UNCHANGED <<queue, indexed, retries, result, exc, hist, alive, expired, stopping,
                  accepted, done, crashes>>
 
-\* the task body returns / raises
+\* the task body returns / raises (execution number loc[a].k)
 W_Body(a) ==
   /\ Live(a)
   /\ pc[a] = "w_body"
-  /\ LET i == a[3] o == CurOutcome(i) IN
-     /\ done' = [done EXCEPT ![i] = @ + 1]
-     /\ inBody' = {b \in inBody : ~(b[1] = a[2] /\ b[2] = i)}
-     /\ loc' = [loc EXCEPT ![a] = [EmptyLoc EXCEPT !.k = execs[i]]]
+  /\ LET i == a[3] o == OutcomeOf(i, loc[a].k) IN
+     /\ done' = [done EXCEPT ![i] = @ \cup {loc[a].k}]
+     /\ inBody' = {b \in inBody : ~(b[1] = a[2] /\ b[2] = i /\ b[4] = loc[a].k)}
      /\ Goto(a, CASE o = "ok" -> "w_set_result"
                   [] o = "fail" -> "w_set_exc"
                   [] OTHER -> "w_read_retries")
-  /\ UNCHANGED <<queue, rec, indexed, retries, result, exc, hist, histq, alive, aged, expired, stopping,
+  /\ UNCHANGED <<queue, rec, indexed, retries, result, exc, hist, histq, loc, alive, aged, expired, stopping,
                  clock, accepted, execs, epoch, changes, crashes>>
 
 W_SetResult(a) ==
@@ -445,7 +445,7 @@ R_Scan(a) ==
   /\ UNCHANGED <<queue, rec, indexed, retries, result, exc, hist, histq, alive, aged, expired, stopping,
                  clock, accepted, execs, done, inBody, epoch, changes, crashes>>
 
-\* the id is added to the reroute set BEFORE the status call; an error aborts the task
+\* mark one id; a status error (lost race with the owner) skips it (at the pinned commit: aborted the task)
 R_Mark(a) ==
   /\ Live(a)
   /\ pc[a] = "r_mark"
@@ -456,17 +456,20 @@ R_Mark(a) ==
             /\ Change(i, RecStatus(a), a[2])
             /\ IF Ok(i, RecStatus(a), a[2])
                  THEN GotoL(a, "r_mark", [loc[a] EXCEPT !.todo = Tail(@), !.rr = Append(@, i)])
-                 ELSE GotoL(a, "r_idle", EmptyLoc)     \* task aborted; marked ones stay in *_RECOVERY
+                 ELSE IF RecoveryAbortsOnLostRace
+                        THEN GotoL(a, "r_idle", EmptyLoc)   \* (pinned commit) task aborted; marked ones stay in *_RECOVERY
+                        ELSE GotoL(a, "r_mark", [loc[a] EXCEPT !.todo = Tail(@)])   \* lost race: skip this one
   /\ UNCHANGED <<queue, indexed, retries, result, exc, hist, alive, expired, stopping,
                  accepted, execs, done, inBody, crashes>>
 
 R_RrStatus(a) ==
   /\ Live(a)
   /\ pc[a] = "r_rr_status"
-  /\ LET i == Head(loc[a].rr) IN
+  /\ LET i == Head(loc[a].rr) rest == Tail(loc[a].rr) IN
      /\ Change(i, "rerouted", a[2])
      /\ IF Ok(i, "rerouted", a[2]) THEN GotoL(a, "r_rr_route", [loc[a] EXCEPT !.cur = i])
-        ELSE GotoL(a, "r_idle", EmptyLoc)
+        ELSE IF RecoveryAbortsOnLostRace \/ rest = <<>> THEN GotoL(a, "r_idle", EmptyLoc)
+        ELSE GotoL(a, "r_rr_status", [loc[a] EXCEPT !.rr = rest])   \* somebody else moved it: skip
   /\ UNCHANGED <<queue, indexed, retries, result, exc, hist, alive, expired, stopping,
                  accepted, execs, done, inBody, crashes>>
 
@@ -555,6 +558,20 @@ H_Write(e) ==
 
 ----------------------------------------------------------------------------
 \* environment
+InHandAt(a) ==
+  CASE a \in PollerActors ->
+         ToSet(loc[a].rr) \cup (IF pc[a] \in {"p_read", "p_cand", "p_setcc", "p_setccfinal", "p_claim", "p_rr_route"}
+                                THEN {loc[a].cur} ELSE {})
+    [] a \in WorkerActors ->
+         IF pc[a] \in {"w_sr_route", "w_inc", "w_retry_route"} THEN {a[3]} ELSE {}
+    [] a \in RecActors ->
+         IF pc[a] \in {"r_mark", "r_rr_status", "r_rr_route"}
+         THEN ToSet(loc[a].rr) \cup (IF pc[a] = "r_rr_route" THEN {loc[a].cur} ELSE {}) ELSE {}
+    [] a \in StopActors ->
+         IF pc[a] \in {"s_rr_status", "s_rr_route"} THEN {loc[a].cur} ELSE {}
+    [] OTHER -> {}
+
+
 Age(i) ==      \* max_pending_seconds elapse while i stays PENDING
   /\ St(i) = "pending" /\ i \notin aged
   /\ aged' = aged \cup {i}
@@ -568,9 +585,9 @@ Expire(r) ==   \* the heartbeat of a dead runner becomes older than the timeout
                  clock, accepted, execs, done, inBody, epoch, changes, crashes>>
 
 Crash(p) ==    \* hard death of a process: none of its actors ever moves again
-  /\ crashes < MaxCrashes /\ alive[p]
+  /\ Cardinality(crashes) < MaxCrashes /\ alive[p]
   /\ alive' = [alive EXCEPT ![p] = FALSE]
-  /\ crashes' = crashes + 1
+  /\ crashes' = crashes \cup {<<p, UNION {{<<a[1], pc[a], i>> : i \in InHandAt(a)} : a \in {b \in Actor : ProcOf(b) = p}}>>}
   /\ inBody' = {b \in inBody : b[1] # p}
   /\ UNCHANGED <<queue, rec, indexed, retries, result, exc, hist, histq, pc, loc, aged, expired, stopping,
                  clock, accepted, execs, done, epoch, changes>>
@@ -653,18 +670,7 @@ NoParallelBody ==       \* same invocation in two bodies at once only across a k
   \A b1, b2 \in inBody : (b1[2] = b2[2] /\ b1 # b2) => b1[3] # b2[3]
 
 \* C03
-InHand(a) ==
-  CASE a \in PollerActors ->
-         ToSet(loc[a].rr) \cup (IF pc[a] \in {"p_read", "p_cand", "p_setcc", "p_setccfinal", "p_claim", "p_rr_route"}
-                                THEN {loc[a].cur} ELSE {})
-    [] a \in WorkerActors ->
-         IF pc[a] \in {"w_sr_route", "w_inc", "w_retry_route"} THEN {a[3]} ELSE {}
-    [] a \in RecActors ->
-         IF pc[a] \in {"r_mark", "r_rr_status", "r_rr_route"}
-         THEN ToSet(loc[a].rr) \cup (IF pc[a] = "r_rr_route" THEN {loc[a].cur} ELSE {}) ELSE {}
-    [] a \in StopActors ->
-         IF pc[a] \in {"s_rr_status", "s_rr_route"} THEN {loc[a].cur} ELSE {}
-    [] OTHER -> {}
+InHand(a) == InHandAt(a)
 
 Safe(i) ==
   \/ St(i) \in Final
@@ -676,11 +682,11 @@ Safe(i) ==
 NoStranded == \A i \in accepted : Safe(i)
 
 EventuallyFinal == \A i \in Inv : (i \in accepted) ~> (St(i) \in Final)
-BodyCompleted == \A i \in Inv : St(i) \in {"success", "failed"} => done[i] >= 1
+BodyCompleted == \A i \in Inv : St(i) \in {"success", "failed"} => done[i] # {}
 
 \* C05
-SuccessHasResult == \A i \in Inv : St(i) = "success" => (result[i] >= 1 /\ result[i] <= done[i])
-FailedHasException == \A i \in Inv : St(i) = "failed" => (exc[i] >= 1 /\ exc[i] <= done[i])
+SuccessHasResult == \A i \in Inv : St(i) = "success" => (result[i] \in done[i] /\ OutcomeOf(i, result[i]) = "ok")
+FailedHasException == \A i \in Inv : St(i) = "failed" => (exc[i] \in done[i] /\ OutcomeOf(i, exc[i]) # "ok")
 
 \* C06
 OneRunningPerKey ==
